@@ -22,8 +22,17 @@ fn ent_key(e: &EntSpec) -> (u64, Option<Vec<u8>>, Option<std::time::SystemTime>,
 }
 
 /// States / transitions of one execution: (model verdict class, body position).
-fn record_trace(st: &mut Stats, m: &Model, shape_class: &str, obs: &ServeObs) {
-    let cls = (m.method, m.cond, m.gate, shape_class.to_string());
+fn record_trace(st: &mut Stats, m: &Model, shape_class: &str, obs: &ServeObs, req: &Req, ent: &EntSpec) {
+    // reference-model verdict class: which conditional / range headers the request carries, what
+    // validators the entity has, and what the model concluded at each stage
+    let mut present = 0u8;
+    for (i, h) in ["range", "if-range", "if-match", "if-none-match", "if-modified-since", "if-unmodified-since"].iter().enumerate() {
+        if req.get(h).is_some() {
+            present |= 1 << i;
+        }
+    }
+    let ent_class = (ent.etag.as_ref().map(|e| e.starts_with(b"W/")), ent.mtime.is_some(), ent.len.min(3));
+    let cls = (m.method, m.cond, m.gate, shape_class.to_string(), present, ent_class, m.shapes.iter().map(|s| s.class()).collect::<Vec<_>>());
     let mut frames = 0u32;
     let mut prev = st.state(&(&cls, 0u32, obs.body.steps.first().map(|(s, _)| (s.lower, s.is_end))));
     for (i, (_, o)) in obs.body.steps.iter().enumerate() {
@@ -64,7 +73,7 @@ impl Eval<'_> {
             0 => "panic".to_string(),
             s => s.to_string(),
         };
-        record_trace(st, &m, &shape_class, &obs);
+        record_trace(st, &m, &shape_class, &obs, req, ent);
         let term = obs
             .body
             .first_terminal()
